@@ -921,7 +921,6 @@ Proof.
       - eapply IH; [exact (list_loop_match_inv _ _ _ _ El Hl i t a Nt Na) | exact (Pt i t a x Nt Na Nx)].
       - exfalso. apply nth_error_None in Na.
         assert (i < List.length (t0 :: tr)) by (apply nth_error_Some; congruence). lia. }
-    destruct (negb (py_truthy la)); auto.
     destruct la; auto.
   - rewrite vmatch_set_unfold in *. rewrite (set_match_perm _ _ _ Pm). exact H.
 Qed.
@@ -1221,7 +1220,6 @@ Section Ext.
   Proof.
     intros E. unfold list_match.
     destruct tl, al; auto; destruct (negb (Nat.eqb _ _)); auto;
-      destruct (negb (py_truthy la)); try (apply list_loop_ext; auto);
       destruct la; auto; apply list_loop_ext; auto.
   Qed.
 
